@@ -658,6 +658,11 @@ def main(argv):
     vio_files = []
     seenjobs = {}
     per_job = {}
+    PRI = ('.postcondition.', '.precondition.', 'loop_invariant_base', 'h.assertion', '.assertion.', 'loop_invariant_step', 'loop_decreases')
+    def _pri(jp):
+        name = jp[1]['name']
+        return min([i for i, k in enumerate(PRI) if k in name] + [len(PRI)])
+    all_viol.sort(key=lambda jp: (jp[0].id, _pri(jp)))    # contract-level obligations first: they get the traces and replays
     for vi, (j, p) in enumerate(all_viol):
         # traces and native replays: at most 2 per job and 24 per run; the rest are recorded without a trace
         per_job[j.id] = per_job.get(j.id, 0) + 1
